@@ -86,17 +86,26 @@ def check_encoding(repo: Repo, rep: Report) -> None:
               variants: List[Tuple[Dict[int, bool], str]] = [({}, "")]
               if n >= 2:
                   variants += [({0: True}, ", vertex 0 given as the constant True"), ({n - 1: False}, f", vertex {n - 1} given as the constant False")]
+              if 2 <= n <= 4:
+                  variants.append(({"neg": True}, ", flags given as negated variables"))  # type: ignore[dict-item]
               for consts, note in variants:
                 inst = Instance(repo)
                 act = inst.user_bools(n, "A")
-                flags: Any = act if not consts else [consts.get(k, v) for k, v in enumerate(act.attrs["data"])]
+                negated = bool(consts.get("neg"))  # type: ignore[call-overload]
+                if negated:
+                    consts = {}
+                    flags: Any = [inst.w.cw.method(v, "__invert__")() for v in act.attrs["data"]]
+                else:
+                    flags = act if not consts else [consts.get(k, v) for k, v in enumerate(act.attrs["data"])]
                 g = inst.w.graph(n, edges)
                 inst.w.call("active_vertices_connected", inst.s, flags, g, acyclic=acyclic)
-                refs, cons = ref_vertices_connected(n, edges, acyclic, act=(lambda i, consts=consts: ("c", consts[i]) if i in consts else ("A", i)))
+                cn_ = Canon({})
+                refs, cons = ref_vertices_connected(n, edges, acyclic, act=(
+                    lambda i, consts=consts, negated=negated: ("c", consts[i]) if i in consts else (cn_.neg(("A", i)) if negated else ("A", i))))
                 same, diff = compare(inst, refs, cons)
-                spec_ = (lambda n=n, edges=edges, acyclic=acyclic, consts=consts: {
+                spec_ = (lambda n=n, edges=edges, acyclic=acyclic, consts=consts, negated=negated: {
                     p for p in itertools.product([False, True], repeat=n)
-                    if tuple(consts.get(k, b) for k, b in enumerate(p)) in connected_sets(n, edges, acyclic)})
+                    if tuple((not b) if negated else consts.get(k, b) for k, b in enumerate(p)) in connected_sets(n, edges, acyclic)})
                 if n <= 5:
                     xitems.append((f"graph '{gname}' {edges}, acyclic={acyclic}{note}", inst, [a for a in inst.arrays if a["user"]][0]["ids"], spec_))
                 if same:
